@@ -363,6 +363,53 @@ func runC18(c *core.Ctx) {
 	// frees blocked writers is never reached
 	c.Rule("R11", "the sender's recover path releases the flag before closing (shared with C02-R3)", 1)
 	importObligations(c, runC02, "R11", func(o *core.Obligation) bool { return o.Rule == "R3" })
+	// a writer released by a context is told so by that context: the arm selected on X.Done() that reports X'.Err()
+	// reports the error of the same X (the channel's own context reads nil while only the caller's has ended)
+	c.Rule("R12", "a select arm woken by a context's Done that returns a context's Err returns the Err of the same context", 2)
+	for _, fn := range p.Funcs {
+		if p.PkgRel(fn) != "." {
+			continue
+		}
+		core.AllInstrs(fn, func(in ssa.Instruction) {
+			sel, ok := in.(*ssa.Select)
+			if !ok || !e.queueSend(sel) {
+				return
+			}
+			for _, st := range core.AnalyseSelect(sel).States {
+				if st.Dir != types.RecvOnly || st.Body == nil {
+					continue
+				}
+				dc, ok := core.Unwrap(st.Chan).(*ssa.Call)
+				if !ok || !dc.Call.IsInvoke() || dc.Call.Method.Name() != "Done" {
+					continue
+				}
+				c.Instance("R12")
+				wake := core.Unwrap(core.ForwardLoad(core.Unwrap(dc.Call.Value)))
+				good, at := true, ""
+				core.Search(nil, st.Body, func(x ssa.Instruction) core.Action {
+					if _, isSel := x.(*ssa.Select); isSel {
+						return core.Barrier
+					}
+					ec, ok := x.(*ssa.Call)
+					if !ok || !ec.Call.IsInvoke() || ec.Call.Method.Name() != "Err" || !core.NamedIs(ec.Call.Value.Type(), "context", "Context") {
+						return core.Continue
+					}
+					src := core.Unwrap(core.ForwardLoad(core.Unwrap(ec.Call.Value)))
+					same := src == wake
+					if !same {
+						fa, ba := core.FieldOf(src)
+						fb, bb := core.FieldOf(wake)
+						same = fa != nil && fa == fb && ba == bb
+					}
+					if !same {
+						good, at = false, p.InstrPos(x)
+					}
+					return core.Continue
+				}, func(a, b *ssa.BasicBlock) bool { return b != st.From })
+				c.Check(good, "R12", core.FName(fn)+"/select/done-arm-reports-own-context", p.InstrPos(sel), "the arm reports the context that woke it", "a select arm woken by one context's Done returns another context's Err ("+at+"): that one has not ended, its Err is nil, and the caller is told the payload was accepted although it was dropped")
+			}
+		})
+	}
 	// an accepted write returns without waiting for the transport because the sender runs elsewhere
 	c.Rule("R10", "every Executor of the library starts its action on another goroutine and never calls it in Exec's own frame", 1)
 	ruleExecutorsAreAsync(c, e, "R10")
